@@ -271,7 +271,7 @@ def run_impl(inp):
     impl = inp[7]
     if impl in (0, 1, 2):
         return run_sync(inp)
-    if impl in (3, 4):
+    if impl in (3, 4, 12):
         import c04_async
         return c04_async.run(inp)
     if impl in (5, 6, 7, 9):
@@ -300,6 +300,17 @@ def _client_run(inp):
 # ---------------------------------------------------------------------------------------------------------------
 # the property, stated on the implementation
 def oracle(inp):
+    if inp[7] == 12:
+        import realio
+        out = run_impl(inp)
+        want = b"".join(realio.chunk_bytes(c if isinstance(c, bytes) else tuple(c)) for _k, chunks, _n in inp[8] for c in chunks)
+        if out[0] in (8, 9):
+            return "asyncio adapter: send does not terminate"
+        if out[0] != 0:
+            return f"asyncio adapter: unexpected exception class (code {out[0]})"
+        if out[1] != want:
+            return f"asyncio adapter: the peer read {out[1]!r} instead of {want!r}"
+        return None
     if inp[7] in (10, 11):
         import c11
         sub = _as_c11(inp)
@@ -550,6 +561,22 @@ def cases(tier, rng, escalate):
             hist.append(h)
     for h in hist:
         yield dict(input=[9, 0, [], [], [], [], [], 11, [h, 0]], tags=["client-threads", "path9", "impl11"], nontrivial=True)
+    # asyncio adapter, several sends in a row (send_all / send_all_from_iterable mixed), partial takes by the kernel
+    for _ in range(1200 if thorough else 250):
+        sends = []
+        for _j in range(rng.randint(1, 4)):
+            kind = rng.choice([0, 1, 1])
+            lengths = [rng.choice([0, 1, 2, 5, 9])] if kind == 0 else [rng.choice([0, 0, 1, 2, 3, 7]) for _ in range(rng.randint(0, 4))]
+            if kind == 1 and not lengths and not adapter_guards_empty_iterable():
+                lengths = [1]
+            sends.append([kind, mk_chunks(lengths), rng.choice([0, 1, 2, 3, 50])])
+        # distinct byte values across the sends
+        b = 1
+        for snd in sends:
+            snd[1] = [bytes((b + i + 7 * j) % 251 + 1 for i in range(len(c))) for j, c in enumerate(snd[1])]
+            b += 31
+        yield dict(input=[10, 0, [], [], [], [], [], 12, sends], tags=["asyncio-adapter-multi", "path10", "impl12",
+                   "with-empty-chunk" if any(len(c) == 0 for snd in sends for c in snd[1]) else "no-empty"], nontrivial=True)
     # random volume
     n_random = 12000 if thorough else 2500
     for _ in range(n_random):
